@@ -69,6 +69,14 @@ CHECKS = {
    technique="property-based testing (proptest): function-level oracle over all PTTL reply classes; log-based oracle (every RESTORE justified by an earlier PTTL read) over generated migrations with forced transfer paths and sub-millisecond TTLs on a virtual clock",
    text="(function) pttl_to_restore_expire_time over -2, -1, 0, 1, small, 2^31+-1, 2^63-1, uniform and malformed replies. (paths) real migrations with keys whose remaining TTL is generated (persistent, <1 ms so PTTL reads 0, ms, s), forced through scan / pull / push. (worlds) random C03 worlds with expiring keys. Every RESTORE reaching the destination must be justified by an earlier PTTL reply p for that key: p=-1 -> 0; p>=0 -> 1<=ttl<=max(p,1), never 0; persistent stays persistent, expiring keeps an expiry.",
    note="The RESTORE ttl is compared with the PTTL value read, not with the original absolute expiry. Malformed PTTL replies are outside Redis' domain: no claim."),
+ "C02": dict(engine="brokersim+proxysim", category="exploration", design="DESIGN.md §3 C02",
+   technique="property-based testing (proptest): broker states from generated histories delivered through the real coordinator encoding to a world of real proxies frozen in generated migration phases; routing oracle computed from the broker's JSON view, execution observed in stand-in logs",
+   text="For reachable broker states (stable, mid-migration, after failover/replacement, limited migration) every cluster member becomes a real proxy with two Redis stand-ins; metadata is sent by the real ProxyMetaRespSender (plain/compressed); the real migrations are frozen in (PreCheck,PreCheck), (Scanning,PreSwitch), (FinalSwitch,PreSwitch) or (SwitchCommitted,SwitchCommitted) by holding handshake/scan messages. From every proxy a SET is sent for every range boundary +-1 and generated slots; it must execute on exactly the node the broker designates (source before the handshake, destination after), within 1 (stable) / 3 (migrating) redirections, and no data command may appear on a foreign node.",
+   note="All cluster members are alive and synced (the property's precondition). Slots are sampled (all boundaries +-1 plus generated ones), not all 16384 per state. The blocked interval during PRESWITCH is not probed. Migration time limits stay at their defaults (time-out fallbacks are fault paths)."),
+ "C14": dict(engine="proxysim", category="exploration", design="DESIGN.md §3 C14",
+   technique="property-based testing (proptest): independent parser of CLUSTER NODES/SLOTS over hand-built cluster maps with arbitrary migration-state maps, and over real proxies of reachable broker states frozen in generated migration phases; agreement oracle with routing probes",
+   text="(maps) ClusterBackendMap with generated segments (stable local/peer, migrating out, importing, third-party migration, gaps), arbitrary state maps, both NODES versions: each covered slot exactly once in NODES and SLOTS at the same address, one myself line, stable slots advertised where a probe executes / is MOVED to, migrating slots at source iff PreCheck else destination, bystander either side once. (phases) the C02 worlds: NODES/SLOTS of every proxy (source, destination, bystander) in each frozen phase.",
+   note="A bystander (no state for the range) may advertise either side; a proxy that holds no state yet for its own migration may advertise either side."),
 }
 
 NOT_YET = {}
